@@ -506,7 +506,9 @@ class Particle(BaseParticle, AmpBase):
             if self.bw_l is None:
                 decay = self.decay[0]
                 self.bw_l = min(decay.get_l_list())
-            return BWR_dom(m, m0, g0, self.bw_l, m1, m2)
+            return BWR_dom(
+                m, m0, g0, self.bw_l, m1, m2, d=getattr(self, "d", 3.0)
+            )
 
 
 @regist_particle("x")
